@@ -25,6 +25,7 @@
 #include <fcppt/optional/reference.hpp>
 
 #include <memory>
+#include <stdexcept>
 #include <optional>
 #include <vector>
 
@@ -59,7 +60,7 @@ static void render(Ref const &r, std::string &o)
     render(x, o);
   o += ")";
 }
-static void render_real(tree const &t, std::string &o, int fuel = 64)
+static void render_real(tree const &t, std::string &o, int fuel = 100000)
 {
   o += "(" + std::to_string(t.value());
   if (fuel > 0)
@@ -635,13 +636,15 @@ struct tree_sys
     {
       std::vector<int> want, got, gotc;
       preorder(r, want);
-      int fuel = 256;
+      // fuel only guards against a corrupted (cyclic) structure; it must exceed any legitimate size
+      int fuel = 100000;
       for (tree &n : fcppt::container::tree::make_pre_order(t))
       {
         got.push_back(n.value());
         if (--fuel == 0)
           break;
       }
+      fuel = 100000;
       for (tree const &n : fcppt::container::tree::make_pre_order(const_cast<tree const &>(t)))
       {
         gotc.push_back(n.value());
@@ -727,6 +730,236 @@ struct tree_sys
   }
 };
 
+// ---------------------------------------------------------------- scale lattice (engine E)
+// The BFS above covers every history inside a node cap of 6-7.  Behaviour that depends on the
+// *number of children* (algorithm thresholds in sort, splice, erase ranges) is covered here: wide
+// nodes with n children for a boundary lattice of n, several key patterns, a fixed set of scripts.
+static int scale_key(int pattern, int i, int n)
+{
+  switch (pattern)
+  {
+  case 0: return 0;                 // all equal
+  case 1: return i % 2;             // alternating
+  case 2: return (n - i) % 3;       // descending modulo 3
+  case 3: return i < n / 2 ? 1 : 0; // two blocks, wrong order
+  default: return (i * 7) % 5;      // scattered
+  }
+}
+
+static void tree_scale()
+{
+  int const ns[] = {0, 1, 2, 3, 15, 16, 17, 18, 31, 32, 33, 40, 64, 65};
+  for (int n : ns)
+    for (int pattern = 0; pattern < 5; ++pattern)
+      for (int script = 0; script < 12; ++script)
+      {
+        if (!vrt::begin("tree_scale", n, pattern, script))
+          continue;
+        vrt::nontrivial(n > 7);
+        vrt::maybe_sample();
+        tree_sys w;
+        tree &root = *w.roots[0];
+        Ref &mr = w.m[0];
+        for (int i = 0; i < n; ++i)
+        {
+          // child i: key by pattern, one grandchild carrying i so that equal keys stay distinguishable
+          tree c(scale_key(pattern, i, n));
+          c.push_back(100 + i);
+          root.push_back(std::move(c));
+          mr.c.push_back(Ref{scale_key(pattern, i, n), {Ref{100 + i, {}}}});
+        }
+        w.check();
+        auto by_value = [](Ref const &x, Ref const &y) { return x.v < y.v; };
+        auto by_value_desc = [](Ref const &x, Ref const &y) { return x.v > y.v; };
+        switch (script)
+        {
+        case 0: // sort() is stable: equal keys keep their insertion order
+          root.sort();
+          std::stable_sort(mr.c.begin(), mr.c.end(), by_value);
+          break;
+        case 1:
+          root.sort([](int a, int b) { return a > b; });
+          std::stable_sort(mr.c.begin(), mr.c.end(), by_value_desc);
+          break;
+        case 2: // sort twice with different orders
+          root.sort([](int a, int b) { return a > b; });
+          root.sort();
+          std::stable_sort(mr.c.begin(), mr.c.end(), by_value_desc);
+          std::stable_sort(mr.c.begin(), mr.c.end(), by_value);
+          break;
+        case 3:
+          if (n >= 3)
+            w.apply(op{ERASE_RANGE, 0, n / 3, 2 * n / 3, 0});
+          break;
+        case 4:
+          if (n >= 1)
+          {
+            w.apply(op{RELEASE, 0, n / 2, 0, 0});
+            w.apply(op{PUSH_FRONT_TREE, 0, 0, 0, 0});
+          }
+          break;
+        case 5:
+          w.apply(op{COPY_CONSTRUCT, 0, 0, 0, 0});
+          w.apply(op{SPARE_SET_VALUE, 0, 9, 0, 0});
+          break;
+        case 6:
+          w.apply(op{MOVE_CONSTRUCT, 0, 0, 0, 0});
+          w.apply(op{MOVE_ASSIGN_FROM_SPARE, 0, 0, 0, 0});
+          break;
+        case 7: // swap the wide root with the other (leaf) root, then sort over there
+          w.apply(op{SWAP, 0, static_cast<int>(count(mr)), 0, 0});
+          w.roots[1]->sort();
+          std::stable_sort(w.m[1].c.begin(), w.m[1].c.end(), by_value);
+          break;
+        case 8: // copy assignment between the roots
+          w.apply(op{COPY_ASSIGN, static_cast<int>(count(mr)), 0, 0, 0});
+          w.roots[1]->sort();
+          std::stable_sort(w.m[1].c.begin(), w.m[1].c.end(), by_value);
+          break;
+        case 9:
+          for (int i = 0; i < n / 2; ++i)
+          {
+            w.apply(op{POP_FRONT, 0, 0, 0, 0});
+            w.apply(op{POP_BACK, 0, 0, 0, 0});
+          }
+          break;
+        case 10: // insert values in the middle until the node has grown by 3
+          for (int i = 0; i < 3; ++i)
+            if (n >= 2)
+              w.apply(op{INSERT_VAL, 0, n / 2, 1, 0});
+          root.sort();
+          std::stable_sort(mr.c.begin(), mr.c.end(), by_value);
+          break;
+        case 11:
+          w.apply(op{CLEAR, 0, 0, 0, 0});
+          break;
+        }
+        w.check();
+      }
+}
+
+// ---------------------------------------------------------------- throwing element type (fault enumeration)
+// An element whose copy / assignment / swap throws at the k-th such operation.  After the exception
+// every child must still name the node that lists it (basic guarantee for the links).
+struct fragile
+{
+  static inline int countdown = 0; // 0 = never throw
+  static void tick()
+  {
+    if (countdown > 0 && --countdown == 0)
+      throw std::runtime_error("fragile");
+  }
+  int v;
+  explicit fragile(int x) : v(x) {}
+  fragile(fragile const &o) : v(o.v) { tick(); }
+  fragile(fragile &&o) noexcept : v(o.v) {}
+  fragile &operator=(fragile const &o)
+  {
+    tick();
+    v = o.v;
+    return *this;
+  }
+  fragile &operator=(fragile &&o)
+  {
+    tick();
+    v = o.v;
+    return *this;
+  }
+  friend void swap(fragile &a, fragile &b)
+  {
+    tick();
+    std::swap(a.v, b.v);
+  }
+  bool operator<(fragile const &o) const { return v < o.v; }
+  bool operator==(fragile const &o) const { return v == o.v; }
+};
+using ftree = fcppt::container::tree::object<fragile>;
+
+static bool flinks(ftree &t, ftree *expect_parent, std::string &why)
+{
+  auto p = t.parent();
+  if (expect_parent == nullptr ? p.has_value() : (!p.has_value() || &p.get_unsafe().get() != expect_parent))
+  {
+    why = expect_parent == nullptr ? "a root reports a parent" : "child.parent() is not the node that lists it";
+    return false;
+  }
+  for (ftree &c : t)
+    if (!flinks(c, &t, why))
+      return false;
+  return true;
+}
+
+static void tree_exceptions()
+{
+  char const *names[] = {"a.swap(b)", "swap(a.front(),b.front())", "a=b", "a.front()=b", "a=move(b)", "a.front()=move(b.front())",
+                         "a.push_back(T const&)", "a.insert(mid,T const&)", "tree(a)", "a.value(T const&)", "a.sort()", "a.front()=a.back()"};
+  for (int script = 0; script < 12; ++script)
+    for (int k = 0; k <= 12; ++k)
+    {
+      if (!vrt::begin_text("tree_exceptions", std::string(names[script]) + " with the " + std::to_string(k) + "-th element copy/assign/swap throwing"))
+        continue;
+      vrt::nontrivial(k > 0);
+      auto a = std::make_unique<ftree>(fragile(1));
+      {
+        a->push_back(fragile(3));
+        ftree c(fragile(2));
+        c.push_back(fragile(4));
+        a->push_front(std::move(c));
+        a->push_back(fragile(2));
+      }
+      auto b = std::make_unique<ftree>(fragile(5));
+      {
+        ftree c(fragile(6));
+        c.push_back(fragile(7));
+        b->push_back(std::move(c));
+      }
+      fragile const lv(9);
+      fragile::countdown = k;
+      bool threw = false;
+      try
+      {
+        switch (script)
+        {
+        case 0: a->swap(*b); break;
+        case 1: swap(*a->begin(), *b->begin()); break;
+        case 2: *a = *b; break;
+        case 3: *a->begin() = *b; break;
+        case 4: *a = std::move(*b); break;
+        case 5: *a->begin() = std::move(*b->begin()); break;
+        case 6: a->push_back(lv); break;
+        case 7: a->insert(std::next(a->begin()), lv); break;
+        case 8:
+        {
+          ftree cp(*a);
+          std::string why;
+          VRT_CHECK(flinks(cp, nullptr, why), "tree_exceptions:link:copy", "%s", why.c_str());
+          break;
+        }
+        case 9: a->value(lv); break;
+        case 10: a->sort(); break;
+        case 11: *a->begin() = *std::prev(a->end()); break;
+        }
+      }
+      catch (std::runtime_error const &)
+      {
+        threw = true;
+      }
+      fragile::countdown = 0;
+      vrt::count(threw ? "tree_exceptions:thrown" : "tree_exceptions:completed");
+      std::string why;
+      VRT_CHECK(flinks(*a, nullptr, why), std::string("tree_exceptions:link:") + names[script], "%s tree a: %s", threw ? "after the exception," : "", why.c_str());
+      VRT_CHECK(flinks(*b, nullptr, why), std::string("tree_exceptions:link:") + names[script], "%s tree b: %s", threw ? "after the exception," : "", why.c_str());
+      // destroying one tree must not disturb the other (ASan: no link into freed nodes)
+      b.reset();
+      VRT_CHECK(flinks(*a, nullptr, why), std::string("tree_exceptions:link_after_destroy:") + names[script], "%s", why.c_str());
+      int sum = 0;
+      for (ftree &n : fcppt::container::tree::make_pre_order(*a))
+        sum += n.value().v;
+      (void)sum;
+      a.reset();
+    }
+}
+
 int main(int argc, char **argv)
 {
   vrt::parse_args(argc, argv);
@@ -738,5 +971,7 @@ int main(int argc, char **argv)
     vrt::hist::explorer<tree_sys> e("tree_forest", l);
     e.run();
   }, 7200);
+  vrt::shard("tree_scale", [] { tree_scale(); });
+  vrt::shard("tree_exceptions", [] { tree_exceptions(); });
   return vrt::run(argc, argv);
 }
